@@ -7,6 +7,7 @@ import (
 	randv2 "math/rand/v2"
 	"os"
 	"path/filepath"
+	"reflect"
 	"regexp"
 	"runtime"
 	"sort"
@@ -475,8 +476,82 @@ type regInput struct {
 	Ver   int
 }
 
+// firstAccess: several goroutines reach an attribute of a struct type nobody has looked at yet (a type made for the round,
+// so the process-wide attribute cache cannot know it) at the same moment. Each render must return what a lone render
+// returns, which for "[{{ x.Name }}|{{ x.Count }}|{{ x.Missing }}]" is known from the value itself.
+func (p *c02) firstAccess(rec *core.Recorder, r *core.Rand, seed uint64, idx int) {
+	prev := runtime.GOMAXPROCS(16)
+	defer runtime.GOMAXPROCS(prev)
+	twig.VerifYield = func(point string) {
+		if strings.HasPrefix(point, "attr.") && randv2.Uint32N(3) == 0 {
+			if randv2.Uint32N(3) == 0 {
+				time.Sleep(time.Duration(20+randv2.Uint32N(200)) * time.Microsecond)
+			} else {
+				runtime.Gosched()
+			}
+		}
+	}
+	defer func() { twig.VerifYield = nil }()
+	e := twig.New()
+	e.RegisterString("t", "[{{ x.Name }}|{{ x.Count }}|{{ x.Missing }}]")
+	e.Render("t", map[string]interface{}{"x": map[string]interface{}{"Name": "warm", "Count": 0}})
+	rounds, wrong, total := 40, 0, 0
+	example := ""
+	for round := 0; round < rounds; round++ {
+		tag := reflect.StructTag(fmt.Sprintf(`verif:"%d_%d_%d"`, seed, idx, round))
+		typ := reflect.StructOf([]reflect.StructField{
+			{Name: "Name", Type: reflect.TypeOf(""), Tag: tag},
+			{Name: "Pad", Type: reflect.TypeOf([3]int{})},
+			{Name: "Count", Type: reflect.TypeOf(0)},
+		})
+		pv := reflect.New(typ)
+		pv.Elem().Field(0).SetString(fmt.Sprintf("n%d", round))
+		pv.Elem().Field(2).SetInt(int64(round + 1))
+		var val interface{} = pv.Elem().Interface()
+		if round%2 == 1 {
+			val = pv.Interface()
+		}
+		want := fmt.Sprintf("[n%d|%d|]", round, round+1)
+		G := []int{2, 4, 8, 16}[r.Intn(4)]
+		outs := make([]string, G)
+		errs := make([]error, G)
+		gate := make(chan struct{})
+		var wg sync.WaitGroup
+		for g := 0; g < G; g++ {
+			wg.Add(1)
+			go func(g int) {
+				defer wg.Done()
+				<-gate
+				outs[g], errs[g] = e.Render("t", map[string]interface{}{"x": val})
+			}(g)
+		}
+		close(gate)
+		wg.Wait()
+		for g := range outs {
+			total++
+			if errs[g] != nil || outs[g] != want {
+				wrong++
+				if example == "" {
+					example = fmt.Sprintf("round %d, %d goroutines, goroutine %d got %q (err=%v), a lone render gives %q", round, G, g, outs[g], errs[g], want)
+				}
+			}
+		}
+	}
+	rec.Eval("first-access", fmt.Sprintf("%d:%d", seed, idx), true)
+	rec.Count("simultaneous-first-attribute-accesses", total)
+	if wrong > 0 {
+		rec.Violate("serial-equivalence", "first-attribute-access-under-concurrency",
+			fmt.Sprintf("%d of %d renders that reached an attribute of a never-seen struct type at the same time returned something else than a lone render: %s", wrong, total, example),
+			map[string]any{"template": "[{{ x.Name }}|{{ x.Count }}|{{ x.Missing }}]", "rounds": rounds, "seed": seed, "index": idx}, "")
+	}
+}
+
 func (p *c02) Run(rec *core.Recorder, seed uint64, idx int, tier string) {
 	twig.SetDebugWriter(io.Discard)
+	if idx%10 == 7 {
+		p.firstAccess(rec, core.NewRand("C02first", seed, idx), seed, idx)
+		return
+	}
 	r := core.NewRand("C02", seed, idx)
 	sched := c02Schedule{
 		G:        []int{2, 4, 8, 8, 16, 32}[r.Intn(6)],
